@@ -22,6 +22,8 @@ def client_arrays(spec):
   w = np.array(_GROUP_W[g % len(_GROUP_W)], np.float32)
   noise = ((s + 2 * j) % 3 - 1).astype(np.float32) * 0.5
   y = (x @ w + noise).astype(np.float32)
+  if spec.get('nan') and n:
+    y[0] = np.nan          # a non-finite value on a REAL example
   return {'x': x, 'y': y, 'domain_id': np.array(dom, np.int32).reshape(n)}
 
 
@@ -66,6 +68,8 @@ def _opt(kind, lr):
     return fedjax.optimizers.sgd(lr, momentum=0.5)
   if kind == 'adam':
     return fedjax.optimizers.adam(lr)
+  if kind == 'ign':       # composition: the ignore-grads wrapper around momentum SGD as the server optimizer
+    return fedjax.optimizers.ignore_grads_haiku(fedjax.optimizers.sgd(lr, momentum=0.5), [('lin', 'b')])
   raise ValueError(kind)
 
 
@@ -176,12 +180,16 @@ def client_rng(seed, rnd, idx):
 
 def cid(i, form='bytes'):
   """Client id of population index i: bytes (default) or str; form '...0' makes the id of client 0 the empty (falsy) one."""
+  if form == 'int0':      # integer ids: client 0 is the falsy 0, client 4 is -1 (a value code likes to use as "absent")
+    return -1 if i == 4 else i
   if form.endswith('0') and i == 0:
     return '' if form.startswith('str') else b''
   return ('c%02d' % i) if form.startswith('str') else (b'c%02d' % i)
 
 
 def cid_index(k):
+  if isinstance(k, int):
+    return 4 if k == -1 else k
   return int(k[1:]) if len(k) else 0
 
 
@@ -214,6 +222,11 @@ def snapshot(tree):
 
 def same_snapshot(a, b):
   return a[1] == b[1] and len(a[0]) == len(b[0]) and all(x == y for x, y in zip(a[0], b[0]))
+
+
+def same_values(a, b):
+  """Same leaves in the same order; the container TYPES may differ (pickling turns a haiku FlatMap into a dict)."""
+  return len(a[0]) == len(b[0]) and all(x == y for x, y in zip(a[0], b[0]))
 
 
 def count_deleted(tree):
